@@ -12,3 +12,9 @@ pub assume_specification<T> [std::mem::replace] (dest: &mut T, src: T) -> (r: T)
 pub assume_specification<T, K: Ord, F: FnMut(&T) -> K>[ <[T]>::sort_by_key ](s: &mut [T], f: F)
     requires forall|x: &T| #[trigger] call_requires(f, (x,)),
     ensures final(s)@.to_multiset() == old(s)@.to_multiset();
+/// R21: take a map out of its place (std::mem::replace(m, HashMap::new())) - verified against the assumed contract of mem::replace
+pub fn take_map_<K: std::cmp::Eq + std::hash::Hash, V>(m: &mut HashMap<K, V>) -> (r: HashMap<K, V>)
+    ensures r == *old(m), final(m)@ == Map::<K, V>::empty(),
+{
+    std::mem::replace(m, HashMap::new())
+}
